@@ -7,9 +7,9 @@ CONTRACT_MODULES = ALL_CONTRACTS
 FUNCTIONS = [S + "_processExtendedGcodeEntry", S + "processExtendedGcode", S + "_processPendingCommands", S + "exitExcludedRegion",
              S + "enterExcludedRegion", S + "disableExclusion", P + "handleScriptHook", S + "resetState", H + "handleGcode", "GcodeParser.GcodeParser.buildCommand", "__init__.ExcludeRegionPlugin._handleSettingsUpdated"]
 ASSUMPTIONS = ["A1", "A2", "A3", "A4", "INDUCTION"]
-BOUNDED = [script("split_script.py")]
+BOUNDED = [script("split_script.py"), script("merge_roundtrip.py")]
 EXTRA_ASSUMPTIONS = ["collections.OrderedDict is modelled as an insertion-ordered map with pairwise distinct keys (abstract array view of arbitrary symbolic size)",
-                     "the configuration is stable during an episode (an entry stored for a merge-mode code is an argument map); merge-mode commands consist of letter/number words",
+                     "the configuration is stable during an episode (an entry stored for a merge-mode code is an argument map); in the deductive part merge-mode commands are seen through the abstract item sequence (letters with optional values); the parser's extra free-text item '' is covered end to end by the bounded merge round-trip (coverage.bounded: bounded/merge-roundtrip)",
                      "callers see GcodeParser.buildCommand as an opaque rendering of (code, argument map); the real buildCommand (constructor, gcode setter, parameterDict setter, stringify) is executed for argument maps of 0..3 parameters with symbolic values and read back with the independent RS274 reader (bounded in the number of parameters only)",
                      "_handleSettingsUpdated is verified for 0..2 configured extended codes and 0..2 configured @-command actions with symbolic modes/actions/descriptions (bounded in these counts only); _splitGcodeScript is an opaque function of the configured text there and is checked bounded (coverage.bounded: bounded/split-script)",
                      "'new print': nothing deferred survives a reset (resetState installs an empty table; no exit script is owed for an episode aborted by a reset)"]
